@@ -246,7 +246,14 @@ def rule_not_recording(ctx, E, prov):
                   "no collection is started before a reporter is installed", "", "start_collect reachable before reporter_ready", extra="start")
     ewp = ctx.need_fn(E, "fastrace::span::Span::enter_with_parent", "R4")
     if ewp is not None:
-        some = discr_cond_edges(ewp, prov, r"Option<fastrace::span::SpanInner>", ["Some"])
+        some = set(discr_cond_edges(ewp, prov, r"Option<fastrace::span::SpanInner>", ["Some"]))
+        # also accepted: a test on a value derived from parent.inner (e.g. inner.as_ref().and_then(..))
+        for sb in range(len(ewp.blocks)):
+            info = ewp.switch_info(sb)
+            if info and info.get("kind") == "discr" and "Option<" in info["ty"] and not ewp.blocks[sb]["cleanup"]:
+                src = prov.of_place(ewp, info["place"])
+                if any(o.kind == "param" and o.key == 2 and ".inner" in o.path for o in src):
+                    some |= set(ewp.variant_edges(sb, ["Some"]))
         calls = [b for b in ewp.calls(lambda t: t["callee"].startswith("fastrace::span::Span::") and not t["callee"].endswith("::noop"))
                  if not ewp.blocks[b]["cleanup"]]
         ctx.check(bool(some) and ewp.guarded(calls, some), "R4", ewp.path, ewp.span,
